@@ -8,7 +8,7 @@ from ..astutil import dotted, is_const, is_none, norm, walk_body
 from ..finite import k_eq, k_is, k_none, Evaluator, NeedAtom, discover_atoms, equivalent
 from ..report import Checker
 from ..srcmodel import Func, Unsupported
-from ..templates import CODEGEN, FIELD, GENERATORS, Fragment, accessor_name, fragments
+from ..templates import CODEGEN, FIELD, GENERATORS, Fragment, accessor_name, fragments, gen_func
 
 FLAGS = ["skip_id", "skip_origin", "skip_content_id", "skip_non_compare", "skip_non_init"]
 
@@ -293,7 +293,7 @@ def r_gen_signature(ck: Checker, rule: str = "R-FLAGS-TT") -> None:
         kwo = [(x.arg, norm(d) if d is not None else None) for x, d in zip(a.kwonlyargs, a.kw_defaults)]
         return (pos, dpos[-len(pos):] if pos else [], sorted(kwo), a.vararg is not None, a.kwarg is not None)
     for gen, public, fname in pairs:
-        g = ck.repo.func(CODEGEN, gen)
+        g = gen_func(ck.repo, gen)
         pub = ck.repo.func("pyoak.node", public)
         cap = run_generator(ck.repo, gen, [(Fld(fname, True, True), TypeInfo(False))])
         if not isinstance(cap.extra_args, str):
@@ -646,7 +646,7 @@ def r_order_key(ck: Checker, rule: str = "R-ORDER-KEY", gens: tuple[str, ...] | 
     for gen, acc in GENERATORS.items():
         if gens is not None and gen not in gens:
             continue
-        f = ck.repo.func(CODEGEN, gen)
+        f = gen_func(ck.repo, gen)
         fields = [(Fld("b"), TypeInfo(True)), (Fld("ab"), TypeInfo(False)), (Fld("c"), TypeInfo(False))]
         cap = run_generator(ck.repo, gen, fields)
         srt, uns = branches(parse_body(cap.body or ""))
@@ -716,9 +716,9 @@ def r_reinstall(ck: Checker, rule: str = "R-REINSTALL") -> None:
         gen_names[gen] = name
         what = f"{gen} installs the accessor it is named after on the class it was generated for"
         if name == GENERATORS[gen] and norm(call.args[0]) == "clz":
-            ck.holds(rule, ck.repo.func(CODEGEN, gen), call, what, fname=name)
+            ck.holds(rule, gen_func(ck.repo, gen), call, what, fname=name)
         else:
-            ck.violation(rule, ck.repo.func(CODEGEN, gen), call, what, construct=f"{gen}: fname={name!r} target={norm(call.args[0])}")
+            ck.violation(rule, gen_func(ck.repo, gen), call, what, construct=f"{gen}: fname={name!r} target={norm(call.args[0])}")
     gf = ck.repo.func(CODEGEN, "_gen_func")
     sets = [c for c in ast.walk(gf.node) if isinstance(c, ast.Call) and dotted(c.func) == "setattr"]
     what = "_gen_func installs the generated function on the class passed in (not on a base class)"
@@ -734,6 +734,11 @@ def r_reinstall(ck: Checker, rule: str = "R-REINSTALL") -> None:
         boots[acc] = b
         cs = [c for c in ast.walk(b.node) if isinstance(c, ast.Call)]
         gen_calls = [c for c in cs if dotted(c.func) in GENERATORS and GENERATORS[dotted(c.func)] == acc]
+        if not gen_calls:
+            # merged / renamed generators: the call that receives (the class, the field table); that it emits *this* accessor was
+            # established above from the evaluation of exactly this call (accessor_name)
+            gen_calls = [c for c in ast.walk(b.raw or b.node) if isinstance(c, ast.Call) and isinstance(c.func, ast.Name) and len(c.args) >= 2 and norm(c.args[0]) in ("self.__class__", "type(self)")
+                         and gen_names.get(next(g_ for g_, a_ in GENERATORS.items() if a_ == acc)) == acc]
         deleg = [c for c in cs if isinstance(c.func, ast.Attribute) and c.func.attr == acc and norm(c.func.value) == "self"]
         what = f"bootstrap gen_and_yield_{acc} generates {acc} for self.__class__ and then delegates to self.{acc}"
         ok = len(gen_calls) == 1 and len(deleg) == 1 and norm(gen_calls[0].args[0]) in ("self.__class__", "type(self)")
